@@ -76,6 +76,11 @@ def configs(tier):
                     vecs += [[1.5, 0.25, 3.0][:n], [0.4, 0.4, 0.4][:n]]
                 for v in vecs:
                     c.append({"plan": p, "gap": g, "simple": simple, "cnscores": v})
+    # chain consistency of what the minor stage hands back when it reports more than one
+    # refinement per candidate: the real read-out loop on two enumerated points (shared
+    # with C04)
+    c.append({"gene": "toy", "genome": "hg19", "cn": ["1", "1"], "major": {"1": 2},
+              "mode": "readout2", "phase": None})
     return c
 
 
@@ -87,6 +92,9 @@ def zmin(terms):
 
 
 def run_config(cfg):
+    if cfg.get("mode") == "readout2":
+        import c04
+        return c04.run_config(cfg)
     res = new_result(cfg)
     plan = PLANS[cfg["plan"]]
     eng = Engine(name="c10", timeout_ms=120000)
@@ -254,6 +262,9 @@ def replay(o):
     """Concrete scores through the real genotype(); selection recomputed independently."""
     import ast
 
+    if o.get("kind") == "none2":
+        import c04
+        return c04.replay(o)
     plan = PLANS[o["plan"]]
     sc = {k: {ast.literal_eval(i): v for i, v in d.items()}
           for k, d in o.get("scores", {}).items()}
